@@ -423,6 +423,14 @@ impl ClosestPeersIter {
     }
 }
 
+#[cfg(libp2p_verif)]
+impl ClosestPeersIter {
+    /// Verification hook: whether the iterator is currently in the `Stalled` state.
+    pub fn verif_is_stalled(&self) -> bool {
+        self.state == State::Stalled
+    }
+}
+
 ////////////////////////////////////////////////////////////////////////////////
 // Private state
 
